@@ -633,6 +633,7 @@ impl Property for C19 {
             SubBatch { name: "pauli_gadget", quick: 8_000, thorough: 500_000 },
             SubBatch { name: "stab_state", quick: 3_000, thorough: 200_000 },
             SubBatch { name: "surface_code", quick: 40, thorough: 400 },
+            SubBatch { name: "long", quick: 256, thorough: 3_000 },
         ]
     }
     fn expected_probes(&self) -> Vec<&'static str> {
@@ -653,8 +654,14 @@ impl Property for C19 {
             _ => d.draw64("seed"),
         };
         let gen = match sub {
-            "random" => {
-                let qubits = if d.coin("q1", 1, 20) {
+            // `long`: hundreds of thousands of gates per circuit, so that events of probability
+            // 2^-24 per gate (a draw that lands exactly on a boundary between two gate kinds, one
+            // of them with probability 0) happen a few times per batch
+            "random" | "long" => {
+                let long = sub == "long";
+                let qubits = if long {
+                    2 + d.choose("q", 4)
+                } else if d.coin("q1", 1, 20) {
                     1
                 } else if d.coin("qwide", 1, 10) {
                     // wider than a machine word
@@ -662,8 +669,15 @@ impl Property for C19 {
                 } else {
                     2 + d.choose("q", 7)
                 };
-                let depth = if d.coin("deep", 1, 12) { 200 + d.choose("depth.deep", 400) } else { d.choose("depth", 61) };
+                let depth = if long {
+                    (1 << 18) + d.choose("depth.long", 1 << 18)
+                } else if d.coin("deep", 1, 12) {
+                    200 + d.choose("depth.deep", 400)
+                } else {
+                    d.choose("depth", 61)
+                };
                 let preset = match d.choose("preset", 6) {
+                    _ if long => 0,
                     0 => 1,
                     1 => 2,
                     _ => 0,
@@ -691,7 +705,7 @@ impl Property for C19 {
                 // later setter calls in a third of the runs (kept only if every probability stays
                 // in [0, 1] and their sum does not exceed 1: admissible parameters)
                 let mut tweaks: Vec<(u8, u32)> = vec![];
-                if qubits >= 2 && d.coin("tweaks", 1, 3) {
+                if qubits >= 2 && !long && d.coin("tweaks", 1, 3) {
                     for _ in 0..1 + d.choose("ntweaks", 3) {
                         let k = d.choose("tweak.kind", 8) as u8;
                         let v = if d.coin("tweak.zero", 1, 2) { 0 } else { d.choose("tweak.v", 401) as u32 };
@@ -730,7 +744,14 @@ impl Property for C19 {
             "stab_state" => Gen::StabState { qubits: if d.coin("ss.wide", 1, 6) { 20 + d.choose("ss.qw", 121) } else { 1 + d.choose("ss.q", 8) }, hash_backend: d.coin("ss.hb", 1, 2) },
             _ => Gen::SurfaceCode { distance: 2 + d.choose("sc.d", 3), rounds: d.choose("sc.r", 4) },
         };
-        Sc { gen, seed, via_child: d.coin("child", 1, 12), seed_pos: d.choose("seedpos", 3) as u8, batch: 1 + d.choose("batch", 3) as u8, history: d.choose("history", 3) as u8 }
+        let mut sc = Sc { gen, seed, via_child: d.coin("child", 1, 12), seed_pos: d.choose("seedpos", 3) as u8, batch: 1 + d.choose("batch", 3) as u8, history: d.choose("history", 3) as u8 };
+        if sub == "long" {
+            // one object per build, no child process, no second round: memory and time
+            sc.via_child = false;
+            sc.batch = 1;
+            sc.history = 0;
+        }
+        sc
     }
 
     fn execute(&self, sc: &Sc, _sub: &str, exec: Decider, env: &Env) -> RunOut {
